@@ -77,7 +77,7 @@ Proof. destruct l; simpl; split; congruence. Qed.
 Lemma wpart4b_spec c p w b : wpart4b c p w b = true <-> wpart4 c p w b.
 Proof.
   unfold wpart4b, wpart4.
-  rewrite !andb_true_iff, !nodupb_NoDup, subsetb_spec, !disjointb_spec. tauto.
+  rewrite !andb_true_iff, !nodupb_NoDup, !subsetb_spec, !disjointb_spec. tauto.
 Qed.
 
 Lemma part4b_spec c p w b : part4b c p w b = true <-> part4 c p w b.
@@ -92,7 +92,7 @@ Lemma part4_exactly_one c p w b q :
   part4 c p w b -> In q c ->
   (In q p /\ ~ In q w /\ ~ In q b) \/ (~ In q p /\ In q w /\ ~ In q b) \/ (~ In q p /\ ~ In q w /\ In q b).
 Proof.
-  intros [(_ & _ & _ & _ & Hpc & Hpw & Hpb & Hwb) Hcov] Hq.
+  intros [(_ & _ & _ & _ & Hpc & _ & _ & Hpw & Hpb & Hwb) Hcov] Hq.
   destruct (Hcov q Hq) as [H|[H|H]].
   - left. auto.
   - right; left. split; [|split]; auto. intros Hp. apply (Hpw q Hp H).
@@ -118,23 +118,27 @@ Ltac nodups := repeat first [apply sadd_NoDup | apply srem_NoDup]; assumption.
 Lemma gwpart_set_child p node x : gwpart x -> gwpart (g_set_child p node x).
 Proof.
   unfold gwpart, g_set_child, wpart4. cbn [g_children g_pending g_waiting g_bound g_with_sets].
-  intros (Nc & Np & Nw & Nb & Hpc & Hpw & Hpb & Hwb).
+  intros (Nc & Np & Nw & Nb & Hpc & Hwc & Hbc & Hpw & Hpb & Hwb).
   destruct (negb node && negb (memZ p (g_waiting x)) && negb (memZ p (g_bound x))) eqn:E.
   - apply andb_true_iff in E. destruct E as [E E3]. apply andb_true_iff in E. destruct E as [E1 E2].
     apply negb_true_iff in E2, E3. apply memZ_nIn in E2, E3.
     repeat split; try nodups; intros q Hq; sets.
     + destruct Hq as [->|Hq]; auto.
+    + auto.
+    + auto.
     + destruct Hq as [->|Hq]; auto.
     + destruct Hq as [->|Hq]; auto.
   - repeat split; try nodups; intros q Hq; sets; auto.
 Qed.
 
-Lemma gwpart_add_assumed p x : gwpart x -> ~ In p (g_bound x) -> gwpart (g_add_assumed p x).
+Lemma gwpart_add_assumed p x :
+  gwpart x -> ~ In p (g_bound x) -> In p (g_children x) -> gwpart (g_add_assumed p x).
 Proof.
   unfold gwpart, g_add_assumed, wpart4. cbn [g_children g_pending g_waiting g_bound g_with_sets].
-  intros (Nc & Np & Nw & Nb & Hpc & Hpw & Hpb & Hwb) Hb.
+  intros (Nc & Np & Nw & Nb & Hpc & Hwc & Hbc & Hpw & Hpb & Hwb) Hb Hc.
   repeat split; try nodups; intros q Hq; sets.
   - apply Hpc. tauto.
+  - destruct Hq as [->|Hq]; auto.
   - intros [->|H]; [tauto | apply (Hpw q); tauto].
   - apply Hpb. tauto.
   - destruct Hq as [->|Hq]; auto.
@@ -142,26 +146,30 @@ Qed.
 
 Lemma gwpart_del_assumed p x : gwpart x -> gwpart (g_del_assumed p x).
 Proof.
-  unfold gwpart, g_del_assumed, wpart4. intros (Nc & Np & Nw & Nb & Hpc & Hpw & Hpb & Hwb).
+  unfold gwpart, g_del_assumed, wpart4. intros (Nc & Np & Nw & Nb & Hpc & Hwc & Hbc & Hpw & Hpb & Hwb).
   destruct (memZ p (g_waiting x)) eqn:Ew; [|repeat split; assumption].
   apply memZ_In in Ew. cbn [g_children g_pending g_waiting g_bound g_with_sets].
   destruct (memZ p (g_children x)) eqn:Ec.
   - apply memZ_In in Ec. repeat split; try nodups; intros q Hq; sets.
     + destruct Hq as [->|Hq]; auto.
+    + apply Hwc. tauto.
     + intros [Hne Hw]. destruct Hq as [->|Hq]; [congruence | apply (Hpw q Hq Hw)].
     + destruct Hq as [->|Hq]; [apply Hwb; exact Ew | apply Hpb; exact Hq].
     + apply Hwb. tauto.
   - repeat split; try nodups; intros q Hq; sets; auto.
+    + apply Hwc. tauto.
     + intros [_ Hw]. apply (Hpw q Hq Hw).
     + apply Hwb. tauto.
 Qed.
 
-Lemma gwpart_add_bound p x : gwpart x -> gwpart (g_add_bound p x).
+Lemma gwpart_add_bound p x : gwpart x -> In p (g_children x) -> gwpart (g_add_bound p x).
 Proof.
   unfold gwpart, g_add_bound, wpart4. cbn [g_children g_pending g_waiting g_bound g_with_sets].
-  intros (Nc & Np & Nw & Nb & Hpc & Hpw & Hpb & Hwb).
+  intros (Nc & Np & Nw & Nb & Hpc & Hwc & Hbc & Hpw & Hpb & Hwb) Hc.
   repeat split; try nodups; intros q Hq; sets.
   - apply Hpc. tauto.
+  - apply Hwc. tauto.
+  - destruct Hq as [->|Hq]; auto.
   - intros [_ Hw]. apply (Hpw q); tauto.
   - intros [->|H]; [tauto | apply (Hpb q); tauto].
   - intros [->|H]; [tauto | apply (Hwb q); tauto].
@@ -170,9 +178,11 @@ Qed.
 Lemma gwpart_delete_pod p x : gwpart x -> gwpart (g_delete_pod p x).
 Proof.
   unfold gwpart, g_delete_pod, wpart4. cbn [g_children g_pending g_waiting g_bound g_with_sets].
-  intros (Nc & Np & Nw & Nb & Hpc & Hpw & Hpb & Hwb).
+  intros (Nc & Np & Nw & Nb & Hpc & Hwc & Hbc & Hpw & Hpb & Hwb).
   repeat split; try nodups; intros q Hq; sets.
   - split; [tauto | apply Hpc; tauto].
+  - split; [tauto | apply Hwc; tauto].
+  - split; [tauto | apply Hbc; tauto].
   - intros [_ Hw]. apply (Hpw q); tauto.
   - intros [_ H]. apply (Hpb q); tauto.
   - intros [_ H]. apply (Hwb q); tauto.
@@ -182,7 +192,8 @@ Qed.
 Lemma gpart_pod_event p node x : gpart x -> gpart (g_pod_event p node x).
 Proof.
   intros [Hw Hcov]. split.
-  - unfold g_pod_event. destruct node; [apply gwpart_add_bound|]; apply gwpart_set_child; exact Hw.
+  - unfold g_pod_event. destruct node; [apply gwpart_add_bound|]; try (apply gwpart_set_child; exact Hw).
+    unfold g_set_child. cbn [g_children g_with_sets]. apply sadd_In. left. reflexivity.
   - unfold g_pod_event. destruct node.
     + unfold g_add_bound, g_set_child.
       cbn [g_children g_pending g_waiting g_bound g_with_sets negb andb].
@@ -197,9 +208,10 @@ Proof.
         -- sets. destruct Hq as [->|Hq]; [tauto|]. destruct (Hcov q Hq) as [H|[H|H]]; tauto.
 Qed.
 
-Lemma gpart_add_assumed p x : gpart x -> ~ In p (g_bound x) -> gpart (g_add_assumed p x).
+Lemma gpart_add_assumed p x :
+  gpart x -> ~ In p (g_bound x) -> In p (g_children x) -> gpart (g_add_assumed p x).
 Proof.
-  intros [Hw Hcov] Hb. split; [apply gwpart_add_assumed; assumption|].
+  intros [Hw Hcov] Hb Hc. split; [apply gwpart_add_assumed; assumption|].
   unfold g_add_assumed. cbn [g_children g_pending g_waiting g_bound g_with_sets].
   intros q Hq. sets. destruct (Z.eq_dec q p) as [->|Hne]; [tauto|].
   destruct (Hcov q Hq) as [H|[H|H]]; tauto.
@@ -217,9 +229,9 @@ Proof.
     destruct (Hcov q Hq) as [H'|[H'|H']]; tauto.
 Qed.
 
-Lemma gpart_add_bound p x : gpart x -> gpart (g_add_bound p x).
+Lemma gpart_add_bound p x : gpart x -> In p (g_children x) -> gpart (g_add_bound p x).
 Proof.
-  intros [Hw Hcov]. split; [apply gwpart_add_bound; assumption|].
+  intros [Hw Hcov] Hc. split; [apply gwpart_add_bound; assumption|].
   unfold g_add_bound. cbn [g_children g_pending g_waiting g_bound g_with_sets].
   intros q Hq. sets. destruct (Z.eq_dec q p) as [->|Hne]; [tauto|].
   destruct (Hcov q Hq) as [H|[H|H]]; tauto.
